@@ -20,24 +20,40 @@ SPECDIR = c05.SPECDIR
 def forgetting(chk, rigbin):
     """The bounded memory forgets: between a carrier's attachment and its
     session's first packet 10240 (= clientIDAddrMapCapacity) other carriers
-    attach.  The specification allows any address then (don't care); the trace
-    must still be a behaviour (the lookup must fail exactly when the model's
-    window has lost the entry).  What RemoteAddr() returns is recorded as an
-    observation for the lead (notes/C18_rig.md)."""
+    attach.  The lookup must fail exactly when the model's window has lost the
+    entry, and RemoteAddr() of the accepted connection must then be the EMPTY
+    address (ServerMux: AddrFor / RemoteAddrRight), never a nil net.Addr
+    (server.go handleConn dereferences it).  TLC judges the trace; a rejection
+    whose accepted address is nil gets the signature of that defect."""
     sc = {"name": "c18-forget", "seed": chk.seed, "stale_ms": 60000, "sessions": [
         {"up": 5000, "down": 5000, "carriers": [{"label": "", "ip": "192.0.2.7", "pres": "id", "flood": 10240}]}],
-        "origin": {"module": "ServerMux", "steps": [["S_SetAddr", [1]], ["10240 x S_SetAddr of other ids"], ["S_GetAddr", ["A"]]]}}
+        "origin": {"module": "ServerMux", "steps": [["S_SetAddr", [1]], ["10240 x S_SetAddr of other ids"], ["S_GetAddr", ["A"]], ["S_Accept", ["A"]]]}}
     results, summary, out, races = corerig.run_rig(rigbin, [sc], par=1, timeout=300, tag="forget")
     res = results["c18-forget"]
     flood = [e for e in res["events"] if e["ev"] == "srv.flood"]
     acc = [e for e in res["events"] if e["ev"] == "app.accept"]
-    if not flood or flood[0]["n"] < 10240 or not acc:
+    look = [e for e in res["events"] if e["ev"] == "srv.accept"]
+    if not flood or flood[0]["n"] < 10240 or not acc or not look:
         chk.fail("forgetting scenario did not reach 10240 attachments / an accept: %s %s" % (flood, acc))
         return
-    c05.judge(chk, "C18", rigbin, [sc], results)
+    if look[0]["found"]:
+        chk.fail("forgetting scenario: the lookup still found the ClientID after %d later attachments (vacuous)" % flood[0]["n"])
+    bad = corerig.validate(chk, SPECDIR, "ServerMux_Trace", "Trace.cfg", [res], shards=1)
+    for r, kind, detail, local, ev in bad:
+        if acc[0]["addr"] == "<nil>":
+            sig = "C18/forgotten-remoteaddr-is-nil"
+            what = ("after %d later attachments the ClientID was evicted from the address memory and Accept() returned a connection whose "
+                    "RemoteAddr() is a nil net.Addr (TLC: %s %s); the specification demands the empty address" % (flood[0]["n"], kind, detail))
+        else:
+            sig = corerig.signature("C18", r, kind, detail, local, ev)
+            what = "forgetting scenario: %s %s at event %s %s" % (kind, detail, local, ev)
+        chk.violation(sig, what, {"scenario": sc, "event_index": local, "event": ev, "kind": kind, "detail": detail,
+                                  "events": [e for e in res["events"] if e["ev"] not in ("srv.in", "srv.out", "app.read")][:40]})
     chk.cov["rig_forgotten_attachments"] = flood[0]["n"]
     chk.cov["rig_forgotten_remoteaddr"] = acc[0]["addr"]
-    chk.note("forgetting: after %d later attachments RemoteAddr() of the accepted connection is %r" % (flood[0]["n"], acc[0]["addr"]))
+    chk.cov["evaluations"] += 1
+    chk.cov["distinct_nontrivial"] += 1
+    chk.note("forgetting: after %d later attachments the lookup found=%s and RemoteAddr() of the accepted connection is %r" % (flood[0]["n"], look[0]["found"], acc[0]["addr"]))
 
 
 def run_rig_part(chk, args):
@@ -101,5 +117,5 @@ def run_rig_part(chk, args):
         chk.fail("vacuous rig part: no session was established after carriers with different addresses")
     chk.assumptions += [
         "rig part: the expected address of each concrete client_ip string is the table SanitTable of spec/ServerMux (contract restricted to the strings the rig sends)",
-        "rig part: when the memory has forgotten the ClientID (10240 later attachments before the session is established; provoked once in the thorough tier) the model allows any address",
+        "rig part: forgetting (10240 later attachments before the session is established) is provoked once, in the thorough tier only (the capacity is a constant of server/lib)",
     ]
